@@ -65,7 +65,27 @@ def gen_scenarios(seed, tier):
                 pp[which] = 0
         if i % 3 == 0:
             d = concurrent_retries(rng, i, d)
+        if i % 11 == 10:
+            d = staggered_backoff(rng, i, d)
         yield d
+
+
+def staggered_backoff(rng, i, d):
+    """job A is deep in a growing back-off (next retry far away) when job B is submitted and fails its first attempt at once: B's
+    retry is due long BEFORE A's.  B's failure is reported by a pool worker while the submit thread, having just handed B over, is
+    computing how long to sleep for A - the wake-up for B must not be lost in that window."""
+    pol = {"max_attempts": 4, "sleep": 1.0, "exponent": rng.choice([3.0, 4.0]), "max_sleep": 120, "exception_base": ["E0"]}
+    a = [[["raise", "E0"]], [["raise", "E0"]], [["ret", 1]]]
+    b = [[["raise", "E0"]], [["ret", 2]]]
+    t_b = rng.choice([1.5, 2.0, 2.5])
+    clients = [[["submit", "k0", a]], [["sleep", t_b], ["submit", "k1", b]]]
+    if rng.random() < 0.4:
+        clients.append([["sleep", t_b], ["submit", "k2", [[["raise", "E0"]], [["ret", 3]]]]])
+    d = dict(d)
+    d.update(layers=[["retry", pol]], clients=clients, base=rng.choice(["simpool2", "simpool2", "simpool1"]), tail=60.0, family="staggered-backoff")
+    if rng.random() < 0.5:
+        d.update(mode="hold", p_switch=rng.choice([0.0, 0.02, 0.1]), trace_lines=True)
+    return d
 
 
 def concurrent_retries(rng, i, d):
